@@ -303,6 +303,73 @@ theorem safe_eithFirstSuccess (inp : Input) (h : wf .eithFirstSuccess inp = true
       (safe_singleton ((ok_fresh inp _ .res).2 ⟨by omega, destOk_res inp⟩)) (cross_of_noKills (noKills_fresh_range _ _))
   · exact safe_fresh_range _ _ (destOk_res inp)
 
+/-! ## variant, tuple, array, record, container::make -/
+
+theorem safe_var1 (inp : Input) (o : Op) (ho : o = .varMatch ∨ o = .varApply) (h : wf o inp = true) : Safe inp (prog o inp) := by
+  have hs := shape_of_wf h
+  rcases ho with rfl | rfl <;>
+  · simp only [shapeOk, Bool.and_eq_true] at hs
+    exact safe_callAll hs.1.1.1.2 (Nat.le_refl _) (destOk_res inp)
+
+theorem safe_varApply2 (inp : Input) (h : wf .varApply2 inp = true) : Safe inp (prog .varApply2 inp) := by
+  have hs := shape_of_wf h
+  simp only [shapeOk, Bool.and_eq_true] at hs
+  exact safe_read_call hs.1.1.1.1.1.2
+
+theorem safe_varToOptional (inp : Input) (h : wf .varToOptional inp = true) : Safe inp (prog .varToOptional inp) := by
+  have hs := shape_of_wf h
+  simp only [shapeOk, Bool.and_eq_true] at hs
+  exact safe_ite (fun _ => safe_xferAll_fwd hs.1.1.1.1.2 (Nat.le_refl _) (destOk_res inp)) (fun _ => safe_nil inp)
+
+theorem safe_map1 (inp : Input) (o : Op) (ho : o = .tupMap ∨ o = .arrMap ∨ o = .recMap) (h : wf o inp = true) :
+    Safe inp (prog o inp) := by
+  have hs := shape_of_wf h
+  rcases ho with rfl | rfl | rfl <;> simp only [shapeOk, Bool.and_eq_true] at hs
+  · exact safe_callAll hs.1.2 (Nat.le_refl _) (destOk_res inp)
+  · exact safe_callAll hs.1.2 (Nat.le_refl _) (destOk_res inp)
+  · exact safe_callAll (anyCat_of_rv hs.1.2) (Nat.le_refl _) (destOk_res inp)
+
+theorem safe_two (inp : Input) (o : Op)
+    (ho : o = .tupPushBack ∨ o = .tupConcat ∨ o = .arrPushBack ∨ o = .arrJoin2 ∨ o = .recMultiplyDisjoint)
+    (h : wf o inp = true) : Safe inp (prog o inp) := by
+  have hs := shape_of_wf h
+  rcases ho with rfl | rfl | rfl | rfl | rfl <;> simp only [shapeOk, Bool.and_eq_true] at hs
+  · exact safe_fwd2 hs.1.1.1.2 hs.1.1.2 (destOk_res inp)
+  · exact safe_fwd2 (anyCat_of_rv hs.1.1.2) (anyCat_of_rv hs.1.2) (destOk_res inp)
+  · exact safe_fwd2 (anyCat_of_rv hs.1.1.1.2) hs.1.1.2 (destOk_res inp)
+  · exact safe_fwd2 (anyCat_of_rv hs.1.1.2) hs.1.2 (destOk_res inp)
+  · exact safe_fwd2 hs.1.1.2 hs.1.2 (destOk_res inp)
+
+theorem safe_arrJoin3 (inp : Input) (h : wf .arrJoin3 inp = true) : Safe inp (prog .arrJoin3 inp) := by
+  have hs := shape_of_wf h
+  simp only [shapeOk, Bool.and_eq_true] at hs
+  obtain ⟨⟨⟨⟨_, h0⟩, h1⟩, h2⟩, _⟩ := hs
+  refine safe_append (safe_fwd2 (anyCat_of_rv h0) h1 (destOk_res inp)) (safe_xferAll_fwd h2 (Nat.le_refl _) (destOk_res inp)) ?_
+  intro x hx y hy
+  rcases List.mem_append.1 hx with hx | hx
+  · exact cross_of_args (onArg_xferAll _ _ _ _) (onArg_xferAll _ _ _ _) (by decide) x hx y hy
+  · exact cross_of_args (onArg_xferAll _ _ _ _) (onArg_xferAll _ _ _ _) (by decide) x hx y hy
+
+theorem safe_arrFromRange (inp : Input) (h : wf .arrFromRange inp = true) : Safe inp (prog .arrFromRange inp) := by
+  have hs := shape_of_wf h
+  simp only [shapeOk, Bool.and_eq_true] at hs
+  exact safe_ite (fun _ => safe_xferAll_fwd hs.1.2 (Nat.le_refl _) (destOk_res inp)) (fun _ => safe_nil inp)
+
+theorem safe_recPermute (inp : Input) (h : wf .recPermute inp = true) : Safe inp (prog .recPermute inp) := by
+  have hs := shape_of_wf h
+  simp only [shapeOk, Bool.and_eq_true, decide_eq_true_eq, List.all_eq_true] at hs
+  obtain ⟨⟨⟨⟨_, h0⟩, _⟩, hnd⟩, hb⟩ := hs
+  exact safe_gather h0 (fun i hi => hb i hi) hnd (destOk_res inp)
+
+theorem safe_contMake (inp : Input) (h : wf .contMake inp = true) : Safe inp (prog .contMake inp) := by
+  have hs := shape_of_wf h
+  simp only [shapeOk, Bool.and_eq_true] at hs
+  obtain ⟨⟨⟨⟨⟨_, h0⟩, h1⟩, _⟩, _⟩, _⟩ := hs
+  have rvio : ∀ c ∈ [Cat.rv, Cat.io], c = .rv ∨ c = .io := by simp
+  exact safe_append (safe_xferAll_move (not_lvcr_of_in h0 rvio) (Nat.le_refl _) (destOk_res inp))
+    (safe_xferAll_move (not_lvcr_of_in h1 rvio) (Nat.le_refl _) (destOk_res inp))
+    (cross_of_args (onArg_xferAll _ _ _ _) (onArg_xferAll _ _ _ _) (by decide))
+
 /-- **every registered operation's program is safe**, for arguments of every size -/
 theorem prog_safe (o : Op) (inp : Input) (h : wf o inp = true) : Safe inp (prog o inp) := by
   cases o with
@@ -344,5 +411,21 @@ theorem prog_safe (o : Op) (inp : Input) (h : wf o inp = true) : Safe inp (prog 
   | eithApply2 => exact safe_eithApply2 inp h
   | eithSequence => exact safe_eithSequence inp h
   | eithFirstSuccess => exact safe_eithFirstSuccess inp h
+  | varMatch => exact safe_var1 inp _ (Or.inl rfl) h
+  | varApply => exact safe_var1 inp _ (Or.inr rfl) h
+  | varApply2 => exact safe_varApply2 inp h
+  | varToOptional => exact safe_varToOptional inp h
+  | tupMap => exact safe_map1 inp _ (Or.inl rfl) h
+  | arrMap => exact safe_map1 inp _ (Or.inr (Or.inl rfl)) h
+  | recMap => exact safe_map1 inp _ (Or.inr (Or.inr rfl)) h
+  | tupPushBack => exact safe_two inp _ (Or.inl rfl) h
+  | tupConcat => exact safe_two inp _ (Or.inr (Or.inl rfl)) h
+  | arrPushBack => exact safe_two inp _ (Or.inr (Or.inr (Or.inl rfl))) h
+  | arrJoin2 => exact safe_two inp _ (Or.inr (Or.inr (Or.inr (Or.inl rfl)))) h
+  | recMultiplyDisjoint => exact safe_two inp _ (Or.inr (Or.inr (Or.inr (Or.inr rfl)))) h
+  | arrJoin3 => exact safe_arrJoin3 inp h
+  | arrFromRange => exact safe_arrFromRange inp h
+  | recPermute => exact safe_recPermute inp h
+  | contMake => exact safe_contMake inp h
 
 end Fcppt.C05
